@@ -119,13 +119,30 @@ def run(tier, seed):
         sc["shape"]["pcol"] = [-1] * sc["shape"]["width"]
         sc["free_tail"] = False
         deg.append(sc)
+    # the largest query count on a domain large enough for all 255 drawn positions to be distinct: batch openings of exactly 255 leaves
+    # in every query set and FRI layer (the boundary of the one-byte counts of the wire format).  Several traces per statement: the
+    # positions are distinct with probability about 0.78 on 2^17 points
+    maxq = []
+    for j, s in enumerate([x for x in stmts if not x["t"]["auxd"] and not x["t"].get("lag") and x["t"]["width"] <= 4 and max(x["t"]["degs"]) <= 3
+                           and x["t"]["fold"] <= 8 and x["t"]["rem"] <= 31 and not x["t"].get("meta")][:2 if tier == "quick" else 6]):
+        for rep in range(3):
+            t = dict(s["t"], ln=13, lb=4, q=255, grind=0)
+            sc = starkgen.scenario(dict(s, t=t, asserts=None, ccols=0, layers=0), 200000 + 10 * j + rep, seed + rep)
+            if not starkgen.low_degree(sc):
+                maxq.append(sc)
+    obs3 = run_scenarios(exe_rel, "complete", maxq, wd, "complete_rel_maxq")
+    ok3 = sum(1 for sc, o in zip(maxq, obs3) if judge_complete(v, sc, o, "rel-maxq"))
+    distinct255 = sum(1 for o in obs3 if o and o.get("unique") == 255)
+    log("[replay] %d statements with 255 queries on 2^17 points in the release build, %d ok, %d with 255 distinct positions" % (len(maxq), ok3, distinct255))
+    if maxq and distinct255 == 0:
+        raise vlib.ToolError("no proof with 255 distinct query positions was produced (%d attempts)" % len(maxq))
     obs2 = run_scenarios(exe_rel, "complete", deg, wd, "complete_rel_degenerate")
     ok2 = sum(1 for sc, o in zip(deg, obs2) if judge_complete(v, sc, o, "rel-degenerate"))
     log("[replay] %d degenerate (constant-column) statements in the release build, %d ok" % (len(deg), ok2))
     rc = v.finish()
     vlib.write_evidence(PID, tier, seed, "model_checking", {
         "states": r.distinct, "transitions": r.generated,
-        "traces_validated_against_impl": len(scs) + len(deg),
+        "traces_validated_against_impl": len(scs) + len(deg) + len(maxq), "proofs_with_255_distinct_query_positions": distinct255,
         "samples": [scs[0], scs[len(scs) // 2]] if scs else [],
         "evaluations": len(scs) + len(deg), "distinct_nontrivial": len(scs),
         "rule": "statements reachable from 4 base statements by changing at most %d parameters to boundary values (Gen_Stark.tla), all admissible; "
